@@ -2143,6 +2143,101 @@ func flagFuel(p *Prog, d *deriver, call *ast.CallExpr, recvExpr ast.Expr) string
 	info := fn.Info()
 	mid, ok := ast.Unparen(recvExpr).(*ast.Ident)
 	if !ok {
+		// the callee's receiver is built by a helper of the module: R.h(…).Method(…); every
+		// value the helper returns must have the flag stored as true before the return
+		hc, isCall := ast.Unparen(recvExpr).(*ast.CallExpr)
+		if !isCall {
+			return ""
+		}
+		hf := calleeOf(info, hc)
+		if hf == nil {
+			return ""
+		}
+		ht := p.FuncOf[hf]
+		if ht == nil || ht.Body == nil {
+			return ""
+		}
+		for _, a := range fn.GuardsAt(call).Atoms() {
+			if a.E == nil || a.Pol {
+				continue
+			}
+			sel, ok := ast.Unparen(a.E).(*ast.SelectorExpr)
+			if !ok {
+				continue
+			}
+			rid, ok := ast.Unparen(sel.X).(*ast.Ident)
+			if !ok || info.ObjectOf(rid) != d.recv {
+				continue
+			}
+			if bt, ok := info.TypeOf(sel).Underlying().(*types.Basic); !ok || bt.Kind() != types.Bool {
+				continue
+			}
+			hinfo := ht.Info()
+			nRet, good := 0, true
+			ast.Inspect(ht.Body, func(n ast.Node) bool {
+				if _, isLit := n.(*ast.FuncLit); isLit {
+					return false
+				}
+				ret, ok := n.(*ast.ReturnStmt)
+				if !ok {
+					return true
+				}
+				nRet++
+				if len(ret.Results) != 1 {
+					good = false
+					return true
+				}
+				vid, ok := ast.Unparen(ret.Results[0]).(*ast.Ident)
+				if !ok {
+					good = false
+					return true
+				}
+				vo := hinfo.ObjectOf(vid)
+				set := false
+				ast.Inspect(ht.Body, func(m ast.Node) bool {
+					as, ok := m.(*ast.AssignStmt)
+					if !ok || len(as.Lhs) != 1 || len(as.Rhs) != 1 {
+						return true
+					}
+					ls, ok := ast.Unparen(as.Lhs[0]).(*ast.SelectorExpr)
+					if !ok || ls.Sel.Name != sel.Sel.Name {
+						return true
+					}
+					if lid, ok := ast.Unparen(ls.X).(*ast.Ident); !ok || hinfo.ObjectOf(lid) != vo {
+						return true
+					}
+					if v, ok := ast.Unparen(as.Rhs[0]).(*ast.Ident); ok && v.Name == "true" && ht.Dominates(as, ret) {
+						set = true
+					} else {
+						good = false // the flag is also stored otherwise
+					}
+					return true
+				})
+				if !set {
+					// or the value is born with the flag: v := T{…, f: true}
+					if def := ht.SingleDef(vo); def != nil {
+						d0 := ast.Unparen(def)
+						if u, ok := d0.(*ast.UnaryExpr); ok && u.Op == token.AND {
+							d0 = ast.Unparen(u.X)
+						}
+						if cl, ok := d0.(*ast.CompositeLit); ok {
+							if fv := litField(cl, sel.Sel.Name); fv != nil {
+								if v, ok := ast.Unparen(fv).(*ast.Ident); ok && v.Name == "true" {
+									set = true
+								}
+							}
+						}
+					}
+				}
+				if !set || len(ht.Assignments(vo)) > 1 {
+					good = false
+				}
+				return true
+			})
+			if good && nRet > 0 {
+				return "one-shot recursion: guarded by !" + exprStr(a.E) + " and " + bareFuncName(ht) + " returns a receiver with " + sel.Sel.Name + " = true"
+			}
+		}
 		return ""
 	}
 	mobj := info.ObjectOf(mid)
